@@ -27,7 +27,7 @@ ASSUMPTIONS = [
     "noise floor = 32 x max(8 eps |y|, deviation of the real untransformed step under (1+-eps) input perturbations, 3 re-runs)",
     "FFT plans differ between the two grid shapes, so nothing is compared bitwise",
 ]
-REQUIRE = {"pairs_2d": 12, "pairs_3d": 8, "pairs_passive": 2}
+REQUIRE = {"pairs_2d": 12, "pairs_3d": 8, "pairs_passive": 2, "steps_observed_with_zero_component_at_poisson_solve": 4}
 SHARD_TIMEOUT = {"quick": 1500, "thorough": 3000}
 
 # a symmetry = (perm, signs) acting on coordinates (x, y[, z]):  x'_i = signs[i] * x_perm[i]
@@ -109,6 +109,16 @@ def shards(tier, seed):
         for (ft, d), dt in itertools.product((("scalar", 2), ("scalar", 3), ("vector", 3)), ("float64", "float32")):
             for s in (s2 if d == 2 else s3):
                 cases.append({"kind": "passive", "field_type": ft, "dim": d, "dtype": dt, "sym": s})
+    # planar vorticity that stays planar up to the Poisson solve (component `planar` identically zero), under the two symmetries that
+    # move the zero component to another slot
+    k = 0
+    for zc, s in itertools.product((0, 1, 2), ("cyclic", "swap_xy")):
+        for solver, dt_, forcing in itertools.product(ax3["solver"], ax3["dtype"], (False, True)):
+            k += 1
+            if tier == "quick" and (k + seed) % 8 != zc + 3 * (s == "cyclic"):
+                continue  # quick: one of the 8 option combinations per (zero component, symmetry)
+            cases.append({"kind": "ns3d", "sym": s, "planar": zc, "solver": solver, "dtype": dt_, "forcing": forcing, "free_stream": bool(k % 2),
+                          "width": 2 * ((k // 2) % 2), "filter": filters[k % 3]})
     for i, c in enumerate(cases):
         c["cid"] = i
     n = 16 if tier == "quick" else 32
@@ -179,12 +189,22 @@ def run_shard(sh, rec):
             rec.count("resampled_zero_face_sum")
         w = util.compact(rng, shape, m, "noise", real_t, lead=lead)
         f = util.compact(rng, shape, m, "noise", real_t, lead=(d,)) if base["forcing"] else None
-        if vec_primary and c["cid"] % 3 == 0:
+        if vec_primary and (c["cid"] % 3 == 0 or c.get("planar") is not None):
             # planar primary field: one component identically zero (and no forcing into it): under a permutation of the axes the zero
             # component moves to another slot
-            zc = int(rng.integers(3))
+            zc = int(rng.integers(3)) if c.get("planar") is None else int(c["planar"])
             w[zc] = 0
             rec.count("cases_with_one_zero_vector_component")
+            if c.get("planar") is not None:
+                # ... and it STAYS identically zero up to the Poisson solve: the step adds dt curl(u x w), whose zc component for a uniform
+                # u is u_zc (div w - d_zc w_zc) - (u . grad) w_zc, exactly zero when u_zc = 0 as well; forcing only along the zero
+                # component (its curl has no such component)
+                for cc in range(d):
+                    u[cc] = real_t(rng.uniform(0.5, 2.0) * rng.choice([-1.0, 1.0])) if cc != zc else 0
+                if f is not None:
+                    for cc in range(d):
+                        if cc != zc:
+                            f[cc] = 0
         U = rng.standard_normal(d)
         if c["cid"] % 2 == 1:
             # axis-aligned free stream (one or two components exactly zero): its image under a transposition / cyclic permutation is
@@ -225,6 +245,13 @@ def run_shard(sh, rec):
             rec.violation("time_step-raises", f"{type(e).__name__}: {e} {label}", {"label": label})
             rec.case(None)
             continue
+        if c.get("planar") is not None:
+            # observed, not assumed: the component was still identically zero when the step handed the vorticity to the Poisson solve
+            # (the vorticity is not modified after that)
+            if not wa[int(c["planar"])].any():
+                rec.count("steps_observed_with_zero_component_at_poisson_solve")
+            else:
+                rec.count("planar_cases_whose_zero_component_did_not_survive")
         # transform A's result and compare with B's
         if vec_primary:
             gwa = t_vector(wa, g, pseudo=pseudo_w)
